@@ -21,9 +21,12 @@ CFGS = {
     "quick": [('{"a", "A", "b"}', "{1, 2}", 8, 2, "ViewLast2", None), ('{"a", "b"}', "{1}", 11, 2, "ViewLast", None),
               ('{"d-1", "b"}', "{1}", 9, 2, "ViewLast", None),
               # mu1 / mu2 are written as the micro sign + s and the Greek mu + s: equal under case folding, different in lower case
-              ('{"mu1", "mu2"}', "{1}", 9, 2, "ViewLast", None)],
+              ('{"mu1", "mu2"}', "{1}", 9, 2, "ViewLast", None),
+              # names that differ only in a character a file system treats specially: still two databases
+              ('{"a.1", "a_1"}', "{1}", 9, 2, "ViewLast", None)],
     "thorough": [('{"a", "A", "b"}', "{1, 2}", 10, 2, "ViewLast2", 150000), ('{"a", "b", "c"}', "{1}", 8, 2, "ViewN", 150000), ('{"a", "b"}', "{1}", 13, 2, "ViewLast2", 150000),
-                 ('{"d-1", "b"}', "{1}", 11, 2, "ViewLast", 100000)],
+                 ('{"d-1", "b"}', "{1}", 11, 2, "ViewLast", 100000), ('{"a.1", "a_1"}', "{1}", 11, 2, "ViewLast", 100000),
+                 ('{"mu1", "mu2"}', "{1}", 11, 2, "ViewLast", 100000)],
 }
 
 
